@@ -371,6 +371,28 @@ def _n3lo_ns(case, res, acc, ad, fh, cls, base, tup):
                 sr,
                 f"nf={nf} variation={t} gamma_ns^(3)(N->1) = {val}",
             )
+    # QED non-singlet minus sectors, slot (4,0) of the (4,1) and (4,2) towers (both N3LO variants)
+    for qo in ((4, 1), (4, 2)):
+        for mode, name in ((10202, "minus-up"), (10203, "minus-down")):
+            for v in range(3 if fh else 1):
+                t = tup(nsm=v)
+                fq = lambda N: ad.gamma_ns_qed(qo, mode, N, nf, t, fh)[4, 0]
+                try:
+                    sr = max(abs(fq(N)) for N in NREF)
+                    try:
+                        val = fq(1.0)
+                    except ZeroDivisionError:
+                        val = _limit_N(fq, 1.0)
+                except Exception as e:  # noqa
+                    res.fail(f"{base}.gamma_ns_qed/mode={name}/raises", f"{type(e).__name__}: {e} order={qo} nf={nf}")
+                    continue
+                acc.zero(
+                    f"{base}.qed-number/sector={name}",
+                    cls,
+                    val,
+                    sr,
+                    f"nf={nf} order={qo} variation={t} gamma_ns_qed^(4,0)(N->1) = {val}",
+                )
     # QED valence grid, slot (4,0)
     for v in range(3 if fh else 1):
         t = (v,) * 7
